@@ -55,6 +55,8 @@ def main(tier, replay=None):
             sp["ensemble_engines"] = [["engine0"]] + [["engine"]] * (sp["n"] - 1)
             sp["extra_engines"] = ("engine0",)
     sc.random_runs(specs)
+    # path numbers that contain one another as strings (1 and 11, 21 and 211) live at the same time: a state every long run passes through
+    sc.random_runs(S.renumbered_specs(sc.chk.seed + 5, 12 if q else 80))
     # real concurrency: the unmodified scheduler() with a real process pool (completion order decided by the operating system)
     sc.real_pool_runs(S.real_pool_specs(sc.chk.seed + 77, 8 if q else 60, kills=not q, n_values=(3, 4) if q else (3, 4, 5)))
     sc.chk.assumptions += ["in the replayed behaviours and the step-driven runs worker processes are replaced by in-process execution of run_md "
